@@ -53,7 +53,7 @@ m = dict(
 		add_only=True,
 	),
 	engines=[dict(name="mir-z3", path="/verif/drv/drvcheck.py", serves_properties=[p for p in sorted(registry.PROPS) if any(h["crate"] == "mir" for h in registry.PROPS[p]["harnesses"])],
-	              kind_free_text="symbolic executor for rustc MIR text (drv/mirx.py) with contract models of the callees and a document-level reference (drv/driver.py); z3 4.x Python API from the tooling venv (python3-vt); invoked by ./check"),
+	              kind_free_text="symbolic executor for rustc MIR text (drv/mirx.py) with contract models of the callees; two front ends: drv/drvcheck.py + drv/driver.py (parser driver loop against a document-level reference) and drv/objcheck.py (Object operations, mapped lookups, fragment lookup, conversions, canonicalization, unordered equality); native replay helper drv/native built against /repo; z3 Python API from the tooling venv (python3-vt); invoked by ./check"),
 	         dict(name="kani-cbmc", path="/verif/check", serves_properties=sorted(registry.PROPS),
 	              kind_free_text="Kani 0.68.0 proof harnesses (external crate /verif/kani with a path dependency on /repo; in-crate harness modules /verif/incrate/*.rs included under cfg(json_syntax_verif)), CBMC 6.11.0 bounded model checker, cadical SAT back end")],
 	checks=checks,
